@@ -318,8 +318,27 @@ pub fn run_case(c: &Case, known: &dyn Fn(&str) -> bool) -> CaseResult {
         return Ok(CaseInfo::excluded(&k));
     }
     let tmp = if c.fs_writer { Some(tempfile::tempdir().map_err(|e| e.to_string())?) } else { None };
+    let mut stale_files = 0;
     let mon = match &tmp {
         Some(d) => {
+            // an older, LONGER file may already sit where an object is going to be written (an earlier
+            // version of the same content location): the file must end up with exactly the object's bytes
+            for (i, o) in c.objs.iter().enumerate() {
+                if (i + c.objs.len()) % 2 == 0 {
+                    if let Ok(url) = url::Url::parse(&o.location) {
+                        let rel = url.path().trim_start_matches('/').to_string();
+                        if !rel.is_empty() && !rel.ends_with('/') && !rel.split('/').any(|x| x == ".." || x == "." || x.is_empty()) {
+                            let path = d.path().join(&rel);
+                            if let Some(parent) = path.parent() {
+                                let _ = std::fs::create_dir_all(parent);
+                            }
+                            if std::fs::write(&path, vec![0xEEu8; o.content.size + 37]).is_ok() {
+                                stale_files += 1;
+                            }
+                        }
+                    }
+                }
+            }
             let fsb = flute::receiver::writer::ObjectWriterFSBuilder::new(d.path(), c.rx.md5_check).map_err(|e| e.0.to_string())?;
             Monitor::with_inner(c.rx.md5_check, Faults::none(), Rc::new(fsb))
         }
@@ -367,6 +386,7 @@ pub fn run_case(c: &Case, known: &dyn Fn(&str) -> bool) -> CaseResult {
     info.label(format!("objects={}", sess.accepted.len()));
     info.label_if(!sess.refused.is_empty(), "an object was refused");
     info.label_if(c.fs_writer, "fs writer");
+    info.label_if(stale_files > 0, "fs writer: an older, longer file already at the destination");
     info.label_if(!c.rx.receive_once, "receive-once off");
     check_delivery(c, &sess, &writers, &perr, &mut info)?;
     if let Some(d) = &tmp {
@@ -434,8 +454,18 @@ pub fn check_fs(c: &Case, s: &Session, dest: &std::path::Path) -> Result<(), Str
             }
         }
     }
-    for (p, _) in &files {
+    for (p, data) in &files {
         if !expected.contains_key(p) {
+            // the older file the harness planted for an object that was then refused by the sender
+            let planted = c.objs.iter().enumerate().any(|(i, o)| {
+                !s.accepted.iter().any(|a| a.idx == i)
+                    && url::Url::parse(&o.location).map(|u| u.path().trim_start_matches('/') == p.as_str()).unwrap_or(false)
+                    && data.len() == o.content.size + 37
+                    && data.iter().all(|b| *b == 0xEE)
+            });
+            if planted {
+                continue;
+            }
             return Err(format!("filesystem writer: unexpected file {:?} in the destination directory", p));
         }
     }
